@@ -12,6 +12,9 @@ META = {
     "level": "Decides: (R1) unmerge_contents removes non-directories with unlink_if_exists over ALL non-directory entries (iterdirs(invert=True), unfiltered) and directories with os.rmdir in reverse-sorted order, tolerating ENOTEMPTY, and nothing else in fs/ops.py's unmerge path can remove anything (no rmtree/removedirs/remove); (R2) in replace mode the 'uninstall' cset is get_remove_cset = old_cset.difference(install), both operands resolved the same way (no realpath on one side only), and plain uninstall aliases old_cset; (R3) BaseSystemUnmergeProtection runs on the same hook and cset as the unmerge trigger with a lower priority (execute_hook sorts ascending), strips every preserved base directory under the engine offset, lists the base directories, and both are registered default triggers. Does NOT decide concrete trees.",
     "note": "unlink(2) does not follow symlinks; rmdir(2) refuses non-empty directories (POSIX)",
 }
+META["technique"] += "; " + 'class-level / memoised write ban and effect analysis on the engine constructors'
+META["level"] += " Added after the second round of independent changes: " + '(R4) no function of engine.py / triggers.py / fs/ops.py writes in place to a class-level table; MergeEngine.install/uninstall/replace work on copies.'
+META["technique"] += "; " + 'generic pack G on the anchored files (optional-flag shift, closures outliving a loop iteration, single-pass iterables consumed twice, %-templates built from data, in-place writes to class-level / memoised objects, generators mutating what they yielded, memo keys that are projections)'
 OPS = "pkgcore.fs.ops"
 ENG = "pkgcore.merge.engine"
 TRG = "pkgcore.merge.triggers"
